@@ -1085,6 +1085,54 @@ impl Connection {
     /// Verification hook: the complete protocol state (state machine, queues,
     /// timers) in a canonical textual form.
     pub fn verif_fingerprint(&self) -> String {
-        format!("{:?} send={:?}", self.state, self.send)
+        fn hex(b: &[u8]) -> String {
+            let mut s = String::new();
+            for x in b {
+                s.push_str(&format!("{:02x}", x));
+            }
+            s
+        }
+        fn time(t: Timeout) -> String {
+            match t.to_opt() {
+                Some(t) => format!("{}", t.as_usecs_since_epoch()),
+                None => "-".to_string(),
+            }
+        }
+        fn tok(t: Token) -> String {
+            format!("{:02x}{:02x}{:02x}{:02x}", t.0[0], t.0[1], t.0[2], t.0[3])
+        }
+        fn online(o: &OnlineState) -> String {
+            let q: Vec<String> = o
+                .resend_queue
+                .iter()
+                .map(|c| format!("{}@{}:{}", c.sequence.to_u16(), time(c.next_send), hex(&c.data)))
+                .collect();
+            format!(
+                "ack={} seq={} rr={} pkt={}:{} nv={}:{} q=[{}]",
+                o.ack.to_u16(),
+                o.sequence.to_u16(),
+                o.request_resend,
+                o.packet.num_chunks,
+                hex(&o.packet.data),
+                o.packet_nonvital.num_chunks,
+                hex(&o.packet_nonvital.data),
+                q.join(",")
+            )
+        }
+        let state = match self.state {
+            State::Unconnected => "Unconnected".to_string(),
+            State::Token(ref s) => format!("Token own={}", tok(s.own_token)),
+            State::PendingConnect(ref s) => format!("PendingConnect own={}", tok(s.own_token)),
+            State::Connecting(ref s) => format!("Connecting own={} their={}", tok(s.own_token), tok(s.their_token)),
+            State::Pending(ref s) => format!("Pending own={} their={}", tok(s.own_token), tok(s.their_token)),
+            State::Online(ref o) => format!(
+                "Online own={} their={} {}",
+                tok(o.own_token),
+                tok(o.their_token),
+                online(o)
+            ),
+            State::Disconnected => "Disconnected".to_string(),
+        };
+        format!("{} send={}", state, time(self.send))
     }
 }
